@@ -43,7 +43,10 @@ OPS_A = ([("step", e, j, o) for e in ("numpy", "SX", "MX") for j in (0, 1) for o
          + [("stepP", "numpy", 0), ("stepP", "SX", 0)]
          # the caller overwrites the contents of the retained arrays of value set 0 IN PLACE (buf[...] = new), as a
          # simulation loop does, before passing the same array objects again
-         + [("inplace0",)])
+         + [("inplace0",)]
+         # a compilation with the extra flow outputs, a caller-held `parameters` dictionary (one declared symbol that enters
+         # nothing) and a caller-held dictionary of keyword constants - both retained and passed again next time
+         + [("tofunP",)])
 OPS_B = [("step", "numpy", j, o) for j in (0, 1) for o in (0, 1)] + [("feedback", o) for o in (0, 1)] + [("inplace0",)]
 
 
@@ -116,6 +119,10 @@ class Session:
         self.cs_ic = {}
         self.engines = {"SX": env.casadi_engine("SX"), "MX": env.casadi_engine("MX")}
         self.last_cs = None
+        self.symbolic_now = False  # the most recent step was a CasADi step with symbols for every variable
+        self.pdicts = {sym: {"spare_parameter": getattr(cs, sym).sym("spare_parameter")} for sym in ("SX", "MX")}
+        self.pdict_snap = {sym: dict(d) for sym, d in self.pdicts.items()}
+        self.kwdict = dict(P)
         self.held = []  # (dict-of-arrays used as feedback input, snapshot)
         self.n_inplace = 0
 
@@ -153,6 +160,12 @@ class Session:
                 if not np.array_equal(a, snap[key], equal_nan=True):
                     return f"purity/fed-back-array/{key[1]}", (f"array of a previous next_states ({key}) that was supplied as an "
                                                                f"initial condition changed from {snap[key].tolist()} to {a.tolist()}")
+        for sym, d in self.pdicts.items():
+            snap = self.pdict_snap[sym]
+            if list(d) != list(snap) or any(d[k] is not snap[k] for k in snap):
+                return "purity/parameters-dict", f"the caller's `parameters` dictionary ({sym}) now has keys {list(d)}, it had {list(snap)}"
+        if self.kwdict != dict(P) or list(self.kwdict) != list(P):
+            return "purity/keyword-dict", f"the caller's dictionary of keyword constants changed to {self.kwdict}"
         msg = param_diff(self.built, self.psnap)
         if msg:
             return "purity/parameter", msg
@@ -190,6 +203,7 @@ class Session:
             _, e, j, o = op
             opts = ALLPOS if o else {}
             if e == "numpy":
+                self.symbolic_now = False
                 net.step(init_conditions=self.np_ic[j], engine=env.numpy_engine(), **self.P, **opts)
                 return "np", {kk: np.array(v, dtype=float, copy=True) for kk, v in read_next(self.built).items()}
             eng = self.engines[e]
@@ -198,6 +212,7 @@ class Session:
             else:
                 net.step(init_conditions=self.cs_inputs(e, j), engine=eng, **self.P, **opts)
             self.last_cs = e
+            self.symbolic_now = True
             F = eng.to_function(net, compact=0)
             comp = Compiled(F, self.built)
             # caller symbols carry other names: map positionally through the network's own order
@@ -229,7 +244,19 @@ class Session:
             for (key, var), arr in cur.items():
                 ic[self.built.obj[key]][var] = arr
             self.held.append((cur, {kk: v.copy() for kk, v in cur.items()}))
+            self.symbolic_now = False
             net.step(init_conditions=ic, engine=env.numpy_engine(), **self.P, **(ALLPOS if o else {}))
+            return None
+        if k == "tofunP":
+            sym = self.last_cs or "SX"
+            eng = self.engines[sym]
+            try:
+                F = eng.to_function(net, compact=0, more_out=True, parameters=self.pdicts[sym], **self.kwdict)
+            except RuntimeError:
+                return None  # not ready (C19's business); must still leave everything untouched
+            want = len(self.spec.variables()) + 1
+            if self.symbolic_now and F.n_in() != want:
+                raise AssertionError(f"to_function with one declared parameter has {F.n_in()} arguments {F.name_in()}, expected {want}")
             return None
         if k == "tofun":
             eng = self.engines[self.last_cs or "SX"]
